@@ -182,4 +182,138 @@ theorem noteP_some (s : BP α) (A : List Tok) (top : Tok) (N : List Tok) (tcp : 
     Option.isNone_some, Bool.false_eq_true, if_false]
   simp only [List.length_append, List.length_singleton]
 
+/-! ### aliases -/
+
+theorem parseAlias_none (container : String) (toks : List Tok) (off : Nat) (s : BP α) (hr : RunAt off toks)
+    (h : s.ext.has Gen.EXT_COMPONENT_ALIAS = false ∨ ∀ t ∈ toks, t.kind ≠ .or) :
+    parseAlias container toks off s = ((buildText off toks, none), s) := by
+  unfold parseAlias
+  have hidx : (if s.ext.has Gen.EXT_COMPONENT_ALIAS then toks.findIdx? (fun t => t.kind == .or) else none) = none := by
+    rcases h with h | h
+    · simp [h]
+    · rw [rt_findIdx_none _ _ (by intro t ht; simpa using h t ht)]; simp
+  simp only [bind, StateT.bind, hasExt_run, hidx, bpText_run hr, pure, StateT.pure]
+
+theorem parseAlias_some (container : String) (nameT : List Tok) (tor : Tok) (aliasT : List Tok) (off : Nat) (s : BP α)
+    (hext : s.ext.has Gen.EXT_COMPONENT_ALIAS = true) (hn : ∀ t ∈ nameT, t.kind ≠ .or) (hor : tor.kind = .or)
+    (ha : ∀ t ∈ aliasT, t.kind ≠ .or) (hrn : RunAt off nameT) (hra : RunAt tor.stop aliasT)
+    (hne : (buildText tor.stop aliasT).isTextEmpty s.cs = false) :
+    parseAlias container (nameT ++ tor :: aliasT) off s =
+      ((buildText off nameT, some (buildText tor.stop aliasT)), s) := by
+  unfold parseAlias
+  have hidx : (nameT ++ tor :: aliasT).findIdx? (fun t => t.kind == .or) = some nameT.length :=
+    rt_findIdx_append _ nameT tor aliasT (by intro t ht; simpa using hn t ht) (by simp [hor])
+  have hany : aliasT.any (fun t => t.kind == .or) = false := by
+    rw [List.any_eq_false]; intro t ht; simpa using ha t ht
+  have hget : (nameT ++ tor :: aliasT)[nameT.length]? = some tor := by
+    rw [List.getElem?_append_right (Nat.le_refl _)]; simp
+  have hdrop : (nameT ++ tor :: aliasT).drop (nameT.length + 1) = aliasT := by
+    rw [show nameT ++ tor :: aliasT = (nameT ++ [tor]) ++ aliasT by simp]
+    rw [List.drop_left' (by simp)]
+  simp only [bind, StateT.bind, hasExt_run, hext, if_true, hidx, List.take_left', hget, Option.getD_some, hdrop,
+    bpText_run hra, bpText_run hrn, get, getThe, MonadStateOf.get, StateT.get, hany, Bool.false_eq_true, if_false,
+    hne, pure, StateT.pure]
+
+/-! ### `parse_modifiers` -/
+
+def flagOf (k : TK) : Nat := (modifierFlag k).getD 0
+
+theorem modKind_flag {k : TK} (h : modKind k = true) : modifierFlag k = some (flagOf k) ∧ flagOf k ≠ 0 := by
+  cases k <;> simp [modKind] at h <;> decide
+
+theorem bits_step (b : Nat) (hb : b < 32) (k j : TK) (hk : modKind k = true) (hj : modKind j = true) :
+    ((⟨b⟩ : Modifiers).insert (flagOf k)).bits < 32 ∧
+    ((⟨b⟩ : Modifiers).insert (flagOf k)).contains (flagOf j) = ((⟨b⟩ : Modifiers).contains (flagOf j) || (k == j)) := by
+  cases k <;> simp [modKind] at hk <;> cases j <;> simp [modKind] at hj <;> (revert b; decide)
+
+theorem parseInterRef_skip (toks : List Tok) (s : BP α) (h : ∀ t, toks.head? = some t → t.kind ≠ .openParen) :
+    parseInterRef toks s = ((none, toks), s) := by
+  unfold parseInterRef
+  cases toks with
+  | nil => rfl
+  | cons t0 r =>
+    have : (t0.kind != TK.openParen) = true := by simpa using h t0 rfl
+    simp only [this, if_true]
+    rfl
+
+theorem parseModifiersLoop_run (span : Span) (ie : Bool) (toks : List Tok) :
+    ∀ (fuel : Nat) (m : Modifiers) (s : BP α), (∀ t ∈ toks, modKind t.kind = true) → (toks.map (·.kind)).Nodup →
+      (∀ t ∈ toks, m.contains (flagOf t.kind) = false) → m.bits < 32 → toks.length + 1 ≤ fuel →
+      parseModifiersLoop span ie fuel toks m none s =
+        ((toks.foldl (fun m t => m.insert (flagOf t.kind)) m, none), s) := by
+  induction toks with
+  | nil =>
+    intro fuel m s _ _ _ _ hf
+    obtain ⟨f, rfl⟩ : ∃ f, fuel = f + 1 := ⟨fuel - 1, by simp at hf; omega⟩
+    unfold parseModifiersLoop
+    rfl
+  | cons tok rest ih =>
+    intro fuel m s hk hnd hc hb hf
+    obtain ⟨f, rfl⟩ : ∃ f, fuel = f + 1 := ⟨fuel - 1, by simp at hf; omega⟩
+    unfold parseModifiersLoop
+    obtain ⟨hfl, hfl0⟩ := modKind_flag (hk tok (by simp))
+    simp only [bind, StateT.bind, hfl, pure, StateT.pure]
+    have hcf : m.contains (flagOf tok.kind) = false := hc tok (by simp)
+    have hnd' : tok.kind ∉ rest.map (·.kind) ∧ (rest.map (·.kind)).Nodup := by
+      rw [List.map_cons] at hnd; exact List.nodup_cons.mp hnd
+    have hstep := fun j hj => bits_step m.bits hb tok.kind j (hk tok (by simp)) hj
+    have hrec := ih f (m.insert (flagOf tok.kind)) s (fun t ht => hk t (by simp [ht])) hnd'.2
+      (by
+        intro t ht
+        have h1 := (hstep t.kind (hk t (by simp [ht]))).2
+        have h2 : (tok.kind == t.kind) = false := by
+          rw [beq_eq_false_iff_ne]
+          intro he
+          exact hnd'.1 (by rw [he]; exact List.mem_map_of_mem ht)
+        rw [h2, hc t (by simp [ht])] at h1
+        exact h1)
+      (hstep tok.kind (hk tok (by simp))).1 (by simp at hf ⊢; omega)
+    have hir : parseInterRef (α := α) rest s = ((none, rest), s) := by
+      apply parseInterRef_skip
+      intro t ht
+      cases rest with
+      | nil => simp at ht
+      | cons y ys =>
+        simp at ht; subst ht
+        have := hk y (by simp)
+        cases hky : y.kind <;> simp [modKind, hky] at this ⊢
+    simp only [hcf, Bool.and_false, Bool.false_eq_true, if_false]
+    split
+    · simp only [StateT.bind, hir]; exact hrec
+    · exact hrec
+
+theorem parseModifiers_run (mods : List TK) (mtoks : List Tok) (pos : Nat) (s : BP α)
+    (hs : Spells mtoks (spellMods mods)) (hk : mods.all modKind = true) (hnd : mods.Nodup) :
+    ∃ span, parseModifiers mtoks pos s = (⟨⟨modsOf mods, span⟩, none⟩, s) := by
+  have hkinds : mtoks.map (·.kind) = mods := by
+    have := congrArg (List.map Prod.fst) hs
+    simpa [spellMods, Tok.kt, tk, List.map_map, Function.comp_def] using this
+  unfold parseModifiers
+  cases hm : mtoks with
+  | nil =>
+    rw [hm] at hkinds
+    simp at hkinds
+    subst hkinds
+    exact ⟨_, rfl⟩
+  | cons t r =>
+    rw [← hm]
+    have hne : mtoks.isEmpty = false := by rw [hm]; rfl
+    have hall : ∀ t ∈ mtoks, modKind t.kind = true := by
+      intro t ht
+      rw [List.all_eq_true] at hk
+      exact hk t.kind (by rw [← hkinds]; exact List.mem_map_of_mem ht)
+    have hl := parseModifiersLoop_run (α := α) (tokensSpan mtoks) (s.ext.has Gen.EXT_INTERMEDIATE_PREPARATIONS) mtoks
+      (mtoks.length + 1) Modifiers.empty s hall (by rw [hkinds]; exact hnd)
+      (by
+        intro t ht
+        have := hall t ht
+        cases hkt : t.kind <;> simp [modKind, hkt] at this <;> decide)
+      (by decide) (Nat.le_refl _)
+    simp only [hne, Bool.false_eq_true, if_false, bind, StateT.bind, hasExt_run, hl, pure, StateT.pure]
+    refine ⟨tokensSpan mtoks, ?_⟩
+    congr 3
+    unfold modsOf
+    rw [← hkinds, List.foldl_map]
+    rfl
+
 end Cook
